@@ -52,6 +52,7 @@ type vhNums struct {
 	pvTot, pcTot uint64
 	pv, pc       [3]uint64 // per target "", "A", "B"
 	pvTop, pcTop int       // index of the most voted target
+	th           *vhThresholds
 	nPH          int       // proposed headers shown: 0, 1 (A), 2 (A, B)
 	ownPH        bool      // the view contains a header proposed by the local key
 	version      uint32
@@ -76,17 +77,15 @@ func vhTopOK(b [3]uint64, t int) bool {
 	return ok
 }
 
-// moreThanTwoThirds reports 3*x > 2*total in 128-bit arithmetic (property text: ">2/3").
-func vhQuorum(x, total uint64) bool {
-	h3, l3 := verifrt.MulU(3, x)
-	h2, l2 := verifrt.MulU(2, total)
-	return verifrt.Gt128(h3, l3, h2, l2)
-}
+// Thresholds of the oracles. ByzantineMajority(total) is the least m with 3m > 2*total and
+// ByzantineMinority(total) the least k with 3k >= total (specification established on the
+// real functions in C18, which is what the engine substitutes under Summarize), so
+// "x is more than two thirds of total" <=> x >= maj and "at least one third" <=> x >= min.
+// The available power is one symbol per environment: computed once.
+type vhThresholds struct{ maj, min uint64 }
 
-// vhThird reports 3*x >= total ("at least one third of the power").
-func vhThird(x, total uint64) bool {
-	h3, l3 := verifrt.MulU(3, x)
-	return verifrt.Ge128(h3, l3, 0, total)
+func vhThresholdsOf(total uint64) *vhThresholds {
+	return &vhThresholds{maj: tmconsensus.ByzantineMajority(total), min: tmconsensus.ByzantineMinority(total)}
 }
 
 // vhTopChoices: number of targets that carry votes: nil, "A" (quick); nil, "A", "B" (thorough).
@@ -176,7 +175,7 @@ func (n *vhNums) summary() tmconsensus.VoteSummary {
 }
 
 // oracle predicates over a view (property text)
-func (n *vhNums) pcQuorumFor(i int) bool { return vhQuorum(n.pc[i], n.avail) }
+func (n *vhNums) pcQuorumFor(i int) bool { return n.pc[i] >= n.th.maj }
 func (n *vhNums) pcAnyQuorum() bool {
 	return verifrt.Or(n.pcQuorumFor(0), verifrt.Or(n.pcQuorumFor(1), n.pcQuorumFor(2)))
 }
@@ -184,9 +183,10 @@ func (n *vhNums) pcAllPresentNoQuorum() bool {
 	return verifrt.And(n.pcTot == n.avail, verifrt.Not(n.pcAnyQuorum()))
 }
 func (n *vhNums) pvAnyQuorum() bool {
-	return verifrt.Or(vhQuorum(n.pv[0], n.avail), verifrt.Or(vhQuorum(n.pv[1], n.avail), vhQuorum(n.pv[2], n.avail)))
+	return verifrt.Or(n.pv[0] >= n.th.maj, verifrt.Or(n.pv[1] >= n.th.maj, n.pv[2] >= n.th.maj))
 }
-func (n *vhNums) pcThird() bool { return vhThird(n.pcTot, n.avail) }
+func (n *vhNums) pcThird() bool   { return n.pcTot >= n.th.min }
+func (n *vhNums) pvPresent() bool { return n.pvTot >= n.th.maj }
 
 // ---- recording signer
 
@@ -478,6 +478,7 @@ type vhSM struct {
 	crashed      bool
 	seen         int // coverage bits, see vhSeen*
 	crashOnSave  bool // the process dies right after the next successful action-store save
+	th           *vhThresholds
 	avail        uint64 // available power of the validator set (symbolic, one per environment)
 	oldTimers    []*vhTimerRec
 	// the real handleCatchupEvent never returns once entered (its loop has no exit
@@ -500,6 +501,7 @@ func vhNewSM(participating bool) *vhSM {
 	e.rounds = map[vhHR]*vhRound{}
 	e.avail = verifrt.U64("avail")
 	verifrt.Assume(e.avail >= 1)
+	e.th = vhThresholdsOf(e.avail)
 	e.entrancePHs = 1
 	e.symEntrances = 1
 	e.viewsLeft = -1
@@ -690,10 +692,10 @@ func (e *vhSM) onEntrance(re tmeil.StateMachineRoundEntrance) {
 	} else {
 		var n *vhNums
 		if e.symEntrances <= 0 {
-			n = &vhNums{avail: e.avail, version: 1}
+			n = &vhNums{avail: e.avail, th: e.th, version: 1}
 		} else {
 			e.symEntrances--
-			n = vhGenNums(&vhNums{avail: e.avail}, vhGrowAll)
+			n = vhGenNums(&vhNums{avail: e.avail, th: e.th}, vhGrowAll)
 			n.version = 1
 		}
 		if e.entrancePHs > 0 && (en.first || e.laterEntrancePHs) {
@@ -883,7 +885,7 @@ func (e *vhSM) deliver(k int) bool {
 		} else {
 			hr.r++
 		}
-		n := &vhNums{avail: rd.view.avail, pvTot: rd.view.avail, pcTot: rd.view.avail, version: 9}
+		n := &vhNums{avail: rd.view.avail, th: e.th, pvTot: rd.view.avail, pcTot: rd.view.avail, version: 9}
 		n.pv[0], n.pc[0] = n.avail, n.avail // would be a nil quorum if it were taken for the current round
 		e.viewCh <- tmeil.StateMachineRoundView{VRV: e.vrv(hr, n)}
 	case evJumpAhead:
@@ -893,7 +895,7 @@ func (e *vhSM) deliver(k int) bool {
 		}
 		to := vhHR{e.cur.h, e.cur.r + by}
 		e.evJumpTo = to
-		j := e.vrv(to, &vhNums{avail: rd.view.avail, version: 1})
+		j := e.vrv(to, &vhNums{avail: rd.view.avail, th: e.th, version: 1})
 		e.viewCh <- tmeil.StateMachineRoundView{JumpAheadRoundView: &j}
 	case evTimer:
 		var t *vhTimerRec
@@ -1020,7 +1022,7 @@ func (e *vhSM) afterEvent() {
 			r.afterPrevote = e.savedOK('V', e.cur)
 			if rd.view != nil {
 				r.trigQuorumPV = rd.view.pvAnyQuorum()
-				r.trigAnyPV = vhQuorum(rd.view.pvTot, rd.view.avail)
+				r.trigAnyPV = rd.view.pvPresent()
 				r.trigThirdPC = rd.view.pcThird()
 			}
 			if kind == vhReqDecide {
@@ -1198,23 +1200,33 @@ func (e *vhSM) replayingCH() bool {
 	return rd != nil && rd.catchupCH != nil
 }
 
-// runSeq: quick: 2 events of any kind then 1 event without new vote numbers;
-// thorough: 4 events of any kind.
+// runSeq: 2 events of any kind, then 1 (quick) / 2 (thorough) events without new vote numbers.
 func (e *vhSM) runSeq(groups int) {
-	if verifrt.Thorough() {
-		e.run(groups, vhEvents(), 4)
-		return
-	}
 	e.run(groups, vhEvents(), 2)
+	tail := 1
+	if verifrt.Thorough() {
+		tail = 2
+	}
 	if e.alive {
-		e.run(groups, vhTailEvents, 1)
+		e.run(groups, vhTailEvents, tail)
 	}
 }
 
-// vhEvents: thorough adds the general view update (all numbers grow, a header may arrive).
-func vhEvents() []int {
+// runStartAny: after an arbitrary start: 1 event of any kind (thorough: including the
+// general view update in which every number may grow and a header may arrive), then
+// 1 (quick) / 2 (thorough) events without new vote numbers.
+func (e *vhSM) runStartAny(groups int) {
+	first := vhEvents()
+	tail := 1
 	if verifrt.Thorough() {
-		return append([]int{evView}, vhAllEvents...)
+		first = append([]int{evView}, first...)
+		tail = 2
 	}
-	return vhAllEvents
+	e.run(groups, first, 1)
+	if e.alive {
+		e.run(groups, vhTailEvents, tail)
+	}
 }
+
+// vhEvents: every event kind except the general view update (see runStartAny).
+func vhEvents() []int { return vhAllEvents }
